@@ -64,7 +64,7 @@ def main():
             rec["outcome"] = "survives-suite"
             rec["checks"] = {}
             for p in mutate.PROPS.get(m["file"], []):
-                rc2, out2 = sh("timeout 1500 ./check %s 2>&1 | grep -E '^(OK|VIOLATION|KNOWN)' | head -3" % p, cwd=verif, timeout=1600)
+                rc2, out2 = sh("timeout 3400 ./check %s 2>&1 | grep -E '^(OK|VIOLATION|KNOWN)' | head -3" % p, cwd=verif, timeout=3500)
                 line = out2.strip().split("\n")[0] if out2.strip() else "NO-VERDICT"
                 rec["checks"][p] = line[:200]
                 if "VIOLATION" in line:
